@@ -161,7 +161,23 @@ func c07script(ver int, evs []string) string {
 	}()
 	stalled, inflight := false, false
 	note := ""
-	nframes := 0 // frames seen by the harness through s.next
+	nframes := 0 // frames the peer has received completely
+	// syncFrames waits until the peer has received every frame whose header the client has started to send
+	syncFrames := func(d time.Duration) bool {
+		end := time.Now().Add(d)
+		for nframes < s.lg.nSending() {
+			left := time.Until(end)
+			if left <= 0 {
+				return false
+			}
+			if _, ok := s.next(left); ok {
+				nframes++
+			} else {
+				return false
+			}
+		}
+		return true
+	}
 	for k, ev := range evs {
 		switch ev[0] {
 		case 'S':
@@ -172,6 +188,7 @@ func c07script(ver int, evs []string) string {
 			stalled, inflight = false, false
 			// the write loop makes maximal progress before the next event: the queue drains
 			waitFor(time.Second, func() bool { return len(s.c.ackQueue) == 0 })
+			syncFrames(time.Second)
 		case 'k':
 			id, _ := strconv.ParseUint(ev[1:], 10, 32)
 			h0, s0 := s.lg.nHandled(), s.lg.nSending()
@@ -186,6 +203,7 @@ func c07script(ver int, evs []string) string {
 			if !stalled {
 				// the write loop is free: it takes the acknowledgement now (unless the loop is parked)
 				waitFor(300*time.Millisecond, func() bool { return s.lg.nSending() > s0 && len(s.c.ackQueue) == 0 })
+				syncFrames(time.Second)
 			} else if !inflight {
 				// the write loop takes this acknowledgement and blocks writing it
 				if waitFor(300*time.Millisecond, func() bool { return s.lg.nSending() > s0 }) {
@@ -213,9 +231,7 @@ func c07script(ver int, evs []string) string {
 			}
 			if stalled {
 				inflight = true
-			} else if _, ok := s.next(3 * time.Second); ok {
-				nframes++
-			} else {
+			} else if !syncFrames(3 * time.Second) {
 				note = fmt.Sprintf(" timeout@%d", k)
 			}
 		}
